@@ -2,3 +2,7 @@ import BalmProofs.Props.C18
 #print axioms Balm.input_const_along
 #print axioms Balm.single_trap
 #print axioms Balm.least_fixes_inputs
+#print axioms Balm.TSys.reach_prod
+#print axioms Balm.TSys.attr_prod_of
+#print axioms Balm.TSys.attr_prod_iff
+#print axioms Balm.TSys.isAttr_tsOf
